@@ -3,6 +3,7 @@ package tlbdesc
 import (
 	"reflect"
 	"regexp"
+	"sort"
 	"strings"
 )
 
@@ -75,4 +76,75 @@ func (d *Desc) Voids(acc *[]string) {
 			a.D.Voids(acc)
 		}
 	}
+}
+
+// CollectTags returns every `tlbSumType` / Magic tag and every other `tlb` field tag
+// reachable from the given types.
+func CollectTags(types []reflect.Type) (sum, field []string) {
+	sm, fm := map[string]bool{}, map[string]bool{}
+	seen := map[reflect.Type]bool{}
+	var walk func(t reflect.Type)
+	walk = func(t reflect.Type) {
+		if seen[t] {
+			return
+		}
+		seen[t] = true
+		switch t.Kind() {
+		case reflect.Pointer, reflect.Slice, reflect.Array:
+			walk(t.Elem())
+		case reflect.Struct:
+			for i := 0; i < t.NumField(); i++ {
+				f := t.Field(i)
+				if tg, ok := f.Tag.Lookup("tlbSumType"); ok {
+					sm[tg] = true
+				}
+				if tg, ok := f.Tag.Lookup("tlb"); ok {
+					if f.Type == magicT {
+						sm[tg] = true
+					} else {
+						fm[tg] = true
+					}
+				}
+				walk(f.Type)
+			}
+		}
+	}
+	for _, t := range types {
+		walk(t)
+	}
+	for k := range sm {
+		sum = append(sum, k)
+	}
+	for k := range fm {
+		field = append(field, k)
+	}
+	sort.Strings(sum)
+	sort.Strings(field)
+	return
+}
+
+// NeverEncodes mirrors Proofs/TlbNoEncP.v: never_encodes.
+func (d *Desc) NeverEncodes() bool {
+	switch d.K {
+	case KVoid:
+		return true
+	case KSum:
+		for _, a := range d.Alts {
+			if !a.D.NeverEncodes() {
+				return false
+			}
+		}
+		return true
+	case KStruct:
+		for _, s := range d.Sub {
+			if s.NeverEncodes() {
+				return true
+			}
+		}
+	case KRef, KEitherRef:
+		return d.Sub[0].NeverEncodes()
+	case KEither:
+		return d.Sub[0].NeverEncodes() && d.Sub[1].NeverEncodes()
+	}
+	return false
 }
